@@ -1,7 +1,7 @@
 (* C06 - recompression never changes the decoded content. Property theorems only. *)
 From Coq Require Import String.
 From Coq Require Import List NArith ZArith Bool.
-From Verif Require Import GoStr Recompress SpecC06 C06Proofs.
+From Verif Require Import GoStr Sx Recompress SpecC06 Monitors C06Proofs C06AeProofs.
 Import ListNotations.
 
 (* For EVERY Accept-Encoding, Content-Encoding and Content-Type string the decision keeps
@@ -35,3 +35,19 @@ Example C06_example :
   get_recompression (bytes "gzip, deflate, br") (bytes "gzip") (bytes "text/html") = (CBrotli, CGzip) /\
   get_recompression (bytes "gzip") (bytes "br") (bytes "text/html") = (CNone, CNone).
 Proof. split; vm_compute; reflexivity. Qed.
+
+(* With the cache in the loop: for EVERY sequence of clients, whatever each one's Accept-Encoding, every answer -
+   fetched from the origin or taken from the entry an earlier client's request filled - carries an encoding that is
+   the origin's own, none, or one whose token occurs in THAT client's Accept-Encoding. (The cache keeps one entry per
+   Accept-Encoding value; the correspondence run checks exactly this bookkeeping against the real server and cache.) *)
+Theorem C06_cache_never_hands_out_an_unlisted_encoding :
+  forall recomp ce ct cc content aes,
+    Forall2 (fun ae o => ae_allowed (ae_value ae) ce (obs_delivered o)) aes (run_ae recomp ce ct cc content aes []).
+Proof. intros. apply run_ae_allowed. constructor. Qed.
+Print Assumptions C06_cache_never_hands_out_an_unlisted_encoding.
+
+Example C06_cache_example :
+  map obs_delivered (run_ae true [] (bytes "text/html") (bytes "max-age=600") (bytes "x")
+                            [bytes "gzip, deflate, br"; bytes "gzip"; bytes "gzip, deflate, br"; bytes "-"] [])
+  = [bytes "br"; bytes "gzip"; bytes "br"; []].
+Proof. vm_compute. reflexivity. Qed.
